@@ -70,15 +70,22 @@ ASSUMPTIONS = [
     'CircuitGate is documented immutable: its inner circuit is not mutated by the aliasing battery',
 ]
 BOUNDS = {
-    'quick': 'circ: W<=3, pre-state 2 symbolic inserts (+pop) + 1 editing call of 20 kinds, plus copy->1 symbolic '
-             'mutating call of 8 kinds; radix: W=3 radixes in {2,3}^3, 2 items with 0-2 params; pd: W=3 all '
-             'placements x both mappings x machine graphs, scalars; wf: depth-2 trees; graph: <=5 qudits; 14 gates',
-    'thorough': 'circ: pre-state 3 inserts incl. blocks, all kinds, 2-call histories; radix: 3 items; pd: full product; '
-                'wf: every slot nested; graph: 6 qudits with a remote edge',
+    'quick': 'circ: pre-states W=3/2 inserts, W=2/2 inserts+pop, W=2/3 inserts (true gaps), incl. CircuitGate blocks; '
+             'W=2/1 insert + 1 editing call of each of 20 kinds (all symbolic arguments); W=3/1 insert + 6 kinds; '
+             'copy -> 1 symbolic mutating call of 8 kinds (W=2); radix: all radix vectors in {2,3}^3 x 1 item, radixes '
+             '(2,3,2) x 2 items, gates with 0-2 params and parametrised blocks; pd: W=3 every placement x initial x final '
+             'mapping x every 3-qudit machine graph; error/seed/user-key/target kinds; wf: depth-2 trees of the 6 control '
+             'passes + ForEach with 6 predicate kinds; graph: every graph on 4 and 5 qudits in 2 insertion orders; '
+             '14 sample library gates',
+    'thorough': 'circ: all kinds on W=3, 2-insert pre-states on W=2 incl. blocks, 24 two-call histories, copy -> 21 '
+                'mutating kinds; radix: all radix vectors x 2 items, 3 items on (2,3,2); pd: 4-qudit machine graphs, '
+                'scalars x graphs; wf: every slot nested; graph: 5 qudits with remote edge/weights, 6 qudits',
 }
 OUTSIDE = ('every library gate constructor space (C18); unitary equality after round trip beyond the 14 sample gates '
            '(follows from structural equality); circuits wider than 3 / histories longer than pre-state + 2 calls; '
-           'pickles crossing Python versions; Compiler/CompilationTask objects')
+           'pickles crossing Python versions; Compiler/CompilationTask objects; the weakness of CircuitGate.__eq__ '
+           '(compares only the common prefix of two blocks, ignores parameters) is an equality-precision issue, not a '
+           'shipping one, and is not asserted here')
 
 
 # --------------------------------------------------------------------------- generic normal form of internals
